@@ -431,7 +431,7 @@ COUNTS = "10 2 3 4\n1 1 1 1\n0 5 0 5\n7 0 0 1\n"
 DATA = "1.0\n2.5\n3.1\n2.2\n-0.5\n10\n2.2\n"
 
 
-def search_case(ctx, rng, tool, idx, corpus, only_valid_inputs=False):
+def search_case(ctx, rng, tool, idx, corpus, only_valid_inputs=False, optfn=None):
     """one invocation of <tool>: choose a usage variant, build its input files (valid / mutated / raw), choose options"""
     tables = ctx.c13_tables
     if tool.startswith("esl-mixdchlet "):
@@ -570,19 +570,19 @@ def search_case(ctx, rng, tool, idx, corpus, only_valid_inputs=False):
         pre.append(op_run("esl-sfetch", ["--index", files[0]]))
     if tool == "esl-afetch" and "--index" not in forced and files and rng.random() < 0.5:
         pre.append(op_run("esl-afetch", ["--index", files[0]]))
-    argv = pick_options(rng, tool, table, files, valid_opts, forced)
+    argv = pick_options(rng, tool, table, files, valid_opts, forced) if optfn is None else optfn(rng, tool, table, files, forced)
     # (no region of a known finding has to be avoided at present: the esl-reformat / esl-sfetch argument checks are fixed)
     if valid_opts and abc_used[0] and rng.random() < 0.7:
         flag = {DNA: "--dna", AMINO: "--amino", "ACGU": "--rna"}[abc_used[0]]
         tn = [o["name"] for o in table]
         if flag in tn and not any(a in ("--dna", "--rna", "--amino") for a in argv) and ("-G" not in forced):
             argv.append(flag)
-    if rng.random() < 0.06:
+    if rng.random() < 0.06 and optfn is None:
         pos = pos[:-1] if rng.random() < 0.5 else pos + ["extra"]
-    if rng.random() < 0.04 and files:
+    if rng.random() < 0.04 and files and optfn is None:
         pos = ["nonexistent" if p == files[0] else p for p in pos]
     use_stdin = None
-    if files and rng.random() < 0.06 and pos and pos[0] == files[0]:
+    if files and rng.random() < 0.06 and pos and pos[0] == files[0] and optfn is None:
         # read the first input from stdin ('-')
         for o in ops:
             if o.startswith("file name=%s " % files[0]):
@@ -636,6 +636,185 @@ def search_cases(ctx):
             continue
         for _ in range(nseed):
             out.append(search_case(ctx, rng, tool, i, corpus, only_valid_inputs=True)); i += 1
+    return out
+
+
+# ---- round 6: the edges the property's quantifier names explicitly ("any file content and any combination of its documented options") ----
+def _decode_run(op):
+    kv = dict(w.split("=", 1) for w in op.split()[1:] if "=" in w)
+    a = kv.get("args", "-")
+    return kv["tool"], ([x.decode("latin-1") for x in bytes.fromhex(a).split(b"\0")] if a != "-" else [])
+
+
+def _file_bytes(ops, name):
+    for o in ops:
+        if o.startswith("file name=%s " % name):
+            h = o.split("hex=")[1]
+            return bytes.fromhex(h) if h != "-" else b""
+    return None
+
+
+def _valued(rng, tool, o, files):
+    v = option_value(rng, tool, o, files, True)
+    return [o["name"]] if v is None else [o["name"], v]
+
+
+def _usable(table):
+    return [o for o in table if o["name"] not in ("-h", "--help", "--stall", "--version", "--devhelp")]
+
+
+def _incompatible_pairs(table):
+    """(a, b): the table of a names b as incompatible, both exist, and they are not the two sides of one toggle group
+    (the later of two toggles silently wins: C14's subject, not an error)"""
+    byname = {o["name"]: o for o in _usable(table)}
+    out = []
+    for o in byname.values():
+        for x in (o.get("incomp") or "").split(","):
+            x = x.strip()
+            if x and x != o["name"] and x in byname:
+                ta, tb = o.get("toggles"), byname[x].get("toggles")
+                if ta and tb and ta == tb: continue
+                out.append((o, byname[x]))
+    return out
+
+
+def _missing_required(table):
+    byname = {o["name"]: o for o in _usable(table)}
+    out = []
+    for o in byname.values():
+        for x in (o.get("reqs") or "").split(","):
+            x = x.strip()
+            if x and x in byname and byname[x].get("default") in (None, "FALSE", "NULL", "0"):
+                out.append((o, byname[x]))
+    return out
+
+
+EDGE_KINDS = ("empty", "nonl", "stdin", "nonexistent", "directory", "outdir", "incompat", "noreq", "triple", "crlf", "onlynl", "bigint")
+# at and beyond the int range: what the option parser validates (esl_str_IsInteger, the range string) and what the tool then reads
+# (esl_opt_GetInteger) must agree for every one of them - a value that is accepted but arrives as 0 / negative kills tool bodies
+BIGINTS = ["2147483647", "2147483648", "4294967295", "4294967296", "4294967297", "-2147483648", "-2147483649", "9223372036854775807",
+           "99999999999999999999", "0", "1", "-1"]
+
+
+def edge_cases_for(ctx, rng, tool, corpus, tag, kinds=EDGE_KINDS):
+    """one valid invocation of <tool> per edge kind, transformed: empty input file, input without the trailing newline, CR-LF line ends,
+    a file of newlines only, input on stdin ('-'), nonexistent / directory input path, every output-file option pointed into a
+    nonexistent directory, an incompatible option pair and a missing required option (both MUST be refused with a diagnostic:
+    `expect_err`), three to five compatible options at once. None of them may end in a signal, a sanitizer report or a hang."""
+    tables = ctx.c13_tables
+    table = tables["esl-mixdchlet"]["tables"].get(tool.split()[1] + "_options", []) if tool.startswith("esl-mixdchlet ") else tables[tool]["options"]
+    out = []
+
+    def base(optfn=None):
+        return search_case(ctx, rng, tool, len(out), corpus, only_valid_inputs=True, optfn=optfn or (lambda r, t, tb, fs, forced: list(forced) + (
+            pick_options(r, t, tb, fs, True) if r.random() < 0.5 else [])))
+
+    def finish(c, kind, **kw):
+        c["name"] = "edge-%s-%s-%s-%d" % (tool.replace(" ", "_"), kind, tag, len(out))
+        c["sticky"] = len(c["ops"]); c.update(kw); out.append(c)
+
+    for kind in kinds:
+        if kind in ("empty", "nonl", "crlf", "onlynl"):
+            c = base()
+            fidx = [k for k, o in enumerate(c["ops"]) if o.startswith("file name=")]
+            if not fidx: continue
+            for k in (fidx if kind == "empty" else fidx[:1]):
+                c2 = dict(c); c2["ops"] = list(c["ops"])
+                nm = c["ops"][k].split()[1].split("=", 1)[1]
+                b = _file_bytes(c["ops"], nm)
+                nb = {"empty": b"", "nonl": b.rstrip(b"\n"), "crlf": b.replace(b"\n", b"\r\n"), "onlynl": b"\n" * rng.choice([1, 2, 50])}[kind]
+                c2["ops"][k] = op_file(nm, nb)
+                finish(c2, kind + "-" + nm)
+        elif kind == "stdin":
+            c = base()
+            exe, args = _decode_run(c["ops"][-1])
+            for k, a in enumerate(args):
+                b = _file_bytes(c["ops"], a)
+                if b is not None and (k == 0 or not args[k - 1].startswith("-")):
+                    args2 = list(args); args2[k] = "-"
+                    c2 = dict(c); c2["ops"] = c["ops"][:-1] + [op_run(exe, args2, stdin=rng.choice([b, b, b"", b.rstrip(b"\n")]))]
+                    finish(c2, "stdin%d" % k)
+                    break
+        elif kind in ("nonexistent", "directory"):
+            c = base()
+            exe, args = _decode_run(c["ops"][-1])
+            cand = [k for k, a in enumerate(args) if _file_bytes(c["ops"], a) is not None]
+            for k in cand:
+                args2 = list(args); args2[k] = {"nonexistent": rng.choice(["nosuchfile", "nodir/in0", ""]), "directory": rng.choice([".", "/", "/tmp"])}[kind]
+                c2 = dict(c); c2["ops"] = c["ops"][:-1] + [op_run(exe, args2)]
+                finish(c2, "%s%d" % (kind, k))
+        elif kind == "outdir":
+            for o in _usable(table):
+                if o["type"] == "eslARG_OUTFILE" or (o["name"] == "-o" and o["type"] == "eslARG_STRING"):
+                    def fn(r, t, tb, fs, forced, o=o):
+                        argv = list(forced) + [o["name"], r.choice(["nodir/out", "/nonexistent-dir/x", ".", "/"])]
+                        for q in (o.get("reqs") or "").split(","):
+                            ro = next((x for x in tb if x["name"] == q.strip()), None)
+                            if ro is not None and ro["name"] not in argv: argv += _valued(r, t, ro, fs)
+                        return argv
+                    finish(base(fn), "outdir" + o["name"])
+        elif kind == "incompat":
+            pairs = _incompatible_pairs(table)
+            rng.shuffle(pairs)
+            for a, b in pairs[:3]:
+                def fn(r, t, tb, fs, forced, a=a, b=b):
+                    x, y = (a, b) if r.random() < 0.5 else (b, a)
+                    return list(forced) + _valued(r, t, x, fs) + _valued(r, t, y, fs)
+                finish(base(fn), "incompat%s+%s" % (a["name"], b["name"]), expect_err=True)
+        elif kind == "noreq":
+            pairs = _missing_required(table)
+            rng.shuffle(pairs)
+            for a, b in pairs[:2]:
+                def fn(r, t, tb, fs, forced, a=a, b=b):
+                    return [w for w in forced if w != b["name"]] + _valued(r, t, a, fs)
+                c = base(fn)
+                exe, args = _decode_run(c["ops"][-1])
+                if b["name"] in args: continue           # the usage variant itself supplies it
+                finish(c, "noreq%s-%s" % (a["name"], b["name"]), expect_err=True)
+        elif kind == "bigint":
+            for o in _usable(table):
+                if o["type"] != "eslARG_INT": continue
+                for v in BIGINTS:
+                    def fn(r, t, tb, fs, forced, o=o, v=v):
+                        argv = list(forced) + ([o["name"] + "=" + v] if o["name"].startswith("--") and r.random() < 0.3 else [o["name"], v])
+                        for q in (o.get("reqs") or "").split(","):
+                            ro = next((x for x in tb if x["name"] == q.strip()), None)
+                            if ro is not None and ro["name"] not in argv: argv += _valued(r, t, ro, fs)
+                        return argv
+                    c = base(fn)
+                    exe, args = _decode_run(c["ops"][-1])
+                    c["ops"][-1] = op_run(exe, args, t=8)
+                    finish(c, "bigint%s=%s" % (o["name"], v), bigint=True)
+        elif kind == "triple":
+            def fn(r, t, tb, fs, forced):
+                us = [o for o in _usable(tb) if str(o.get("docgroup")) != "99"]
+                chosen, names = [], set(forced)
+                r.shuffle(us)
+                for o in us:
+                    if len(chosen) >= r.choice([3, 3, 4, 5]): break
+                    inc = set(x.strip() for x in (o.get("incomp") or "").split(","))
+                    if o["name"] in names or inc & names or any(o["name"] in (c_.get("incomp") or "").split(",") for c_ in chosen): continue
+                    tg = o.get("toggles")
+                    if tg and any(c_.get("toggles") == tg for c_ in chosen): continue
+                    chosen.append(o); names.add(o["name"])
+                argv = list(forced)
+                for o in chosen: argv += _valued(r, t, o, fs)
+                return argv
+            for _ in range(2): finish(base(fn), "triple")
+    return out
+
+
+def edge_cases(ctx):
+    corpus = load_corpus_files(ctx)
+    out = []
+    for tool in USAGE:
+        basen = tool if not tool.startswith("esl-mixdchlet ") else "esl-mixdchlet"
+        if basen not in ctx.c13_tables: continue
+        out += edge_cases_for(ctx, _tool_rng(tool, "edge"), tool, corpus, "fixed")
+        if ctx.tier != "quick":
+            for k in range(6): out += edge_cases_for(ctx, _tool_rng(tool, "edge%d" % k), tool, corpus, "fixed%d" % k)
+        out += edge_cases_for(ctx, ctx.rng, tool, corpus, "seed", kinds=("incompat", "triple", "stdin", "nonl", "outdir"))
+    ctx.c13_stats["edge_cases"] = len(out)
     return out
 
 
@@ -1224,45 +1403,117 @@ def _check_alistat_info(case, out):
     return None
 
 
+def _pfam_record(rng, abc, names, ident=None, gs=True, gr=True, rf=None, ss=None, alen=None, lower=0.2, gaps="-."):
+    """one Pfam record (one line per sequence) with the furniture the streamed (--small) paths have to cope with: #=GF lines,
+    comment and blank lines, #=GS AC/DE lines in front of the sequences, #=GR PP/SS lines, #=GC SS_cons/RF, names padded with SPACES"""
+    alen = alen or rng.choice([1, 5, 12, 30, 59, 60, 61, 75, 121])
+    nuc = abc != AMINO
+    rows = []
+    for n in names:
+        seq = "".join(rng.choice(gaps) if rng.random() < 0.2 else rng.choice(abc + (DEGEN[abc] if rng.random() < 0.1 else "")) for _ in range(alen))
+        if not any(c not in gaps for c in seq): seq = abc[0] + seq[1:]
+        seq = "".join(c.lower() if rng.random() < lower else c for c in seq)
+        rows.append((n, seq))
+    w = max(len(n) for n in names) + rng.choice([1, 2, 5])
+    if gr or ss or rf: w = max(w, 14 + max(len(n) for n in names))
+    L = ["# STOCKHOLM 1.0"]
+    if rng.random() < 0.3: L.append("")
+    if ident: L.append("#=GF ID %s" % ident)
+    if rng.random() < 0.3: L.append("#=GF DE  some free text   with   blanks")
+    if rng.random() < 0.3: L.append("# a comment line")
+    gsl = []
+    if gs:
+        # in sequence order, as the Pfam writer emits them (the afa path of esl-reformat relies on that order), and such that the order of
+        # FIRST MENTION is the order of the sequence lines: the in-memory reader numbers sequences by first mention (a #=GS line counts),
+        # the streamed paths by sequence line - the two modes promise the same output only when these orders coincide
+        k1 = rng.randrange(0, len(names) + 1) if rng.random() < 0.7 else 0
+        k2 = rng.randrange(k1, len(names) + 1)
+        for n in names[:k1]:
+            gsl.append(("AC", "#=GS %s AC %s" % (n, rng.choice(["X123.4", "PF00001", "acc_" + n]))))
+        for j, n in enumerate(names[:k2]):
+            if j >= k1 or rng.random() < 0.5: gsl.append(("DE", "#=GS %s DE %s" % (n, rng.choice(["a description", "kinase (EC 2.7.1.1)", "x"]))))
+        L += [l for _, l in gsl]
+    if rng.random() < 0.5: L.append("")
+    sscons = balanced_ss(rng, alen) if (ss if ss is not None else (nuc and rng.random() < 0.5)) else None
+    for n, seq in rows:
+        L.append(n.ljust(w) + " " + seq)
+        if gr and rng.random() < 0.4:
+            pp = "".join("." if c in gaps else rng.choice("0123456789*") for c in seq)
+            L.append(("#=GR %s PP" % n).ljust(w) + " " + pp)
+        if gr and nuc and sscons and rng.random() < 0.3:
+            L.append(("#=GR %s SS" % n).ljust(w) + " " + sscons)
+    if sscons: L.append("#=GC SS_cons".ljust(w) + " " + sscons)
+    has_rf = rf if rf is not None else rng.random() < 0.5
+    rfl = None
+    if has_rf:
+        rfl = "".join("x" if rng.random() < 0.7 else "." for _ in range(alen))
+        if "x" not in rfl: rfl = "x" + rfl[1:]
+        L.append("#=GC RF".ljust(w) + " " + rfl)
+    L.append("//")
+    return "\n".join(L) + "\n", rows, rfl
+
+
 def ref_small(rng, i):
-    """esl-reformat --small (Pfam in, afa/pfam out without building an ESL_MSA) must print what the normal mode prints,
-    with every residue-conversion option; likewise esl-alimask --small and esl-alimanip --small (--seq-k/--seq-r)"""
+    """the streamed (--small, Pfam only) paths of esl-reformat / esl-alimask / esl-alimanip / esl-alistat: stdout predicted by the Lean
+    models of esl_msafile2_RegurgitatePfam, regurgitate_pfam_as_pfam, regurgitate_pfam_as_afa and the --small summary of esl-alistat, compared
+    exactly; the python monitor (`same_out`) additionally checks, on the tool's own outputs, that the normal mode prints the same tokens"""
     abc = rng.choice([DNA, "ACGU", AMINO])
-    rows, _ = gen_msa(rng, abc=abc, nseq=rng.choice([1, 2, 3, 6]))
-    rows = [("%s%d" % (rng.choice(["s", "seq", "x_"]), k + 1), s) for k, (n, s) in enumerate(rows)]
-    if rng.random() < 0.4:
-        rows = [(n, "".join(c.lower() if rng.random() < 0.2 else c for c in s_)) for n, s_ in rows]
-    text = stockholm_text(rows, rng, rf=rng.random() < 0.5, ss=False, name=rng.choice([None, "aln1"]))
-    which = rng.choice(["reformat", "reformat", "alimask", "alimanip"])
-    if which == "reformat":
+    nseq = rng.choice([1, 2, 3, 6, 17])
+    names = ["%s%d" % (rng.choice(["s", "seq", "x_", "a|b|"]), k + 1) for k in range(nseq)]
+    which = rng.choice(["reformat-afa", "reformat-pfam", "alimask", "alimanip", "alistat", "alistat"])
+    nrec = 1 if which in ("reformat-afa", "alimask") else rng.choice([1, 1, 2, 3])
+    text, rows0, rf0 = "", None, None
+    for k in range(nrec):
+        t, rows, rfl = _pfam_record(rng, abc, names, ident=("aln%d" % (k + 1) if rng.random() < 0.7 or nrec > 1 else None),
+                                    gs=(which != "alistat" or rng.random() < 0.5), rf=(True if which == "alimask" and rng.random() < 0.6 else None),
+                                    lower=(0.2 if which.startswith("reformat") else 0.0))
+        if k == 0: rows0, rf0 = rows, rfl
+        text += t
+        if rng.random() < 0.3: text += "\n"
+    case = {"name": "ref-small-%d-%s" % (i, which), "ref": True, "sticky": 1}
+    if which.startswith("reformat"):
         opts = []
         for a, b in (("-d", "-r"), ("-l", "-u"), ("-n", "-x")):
             w = rng.random()
             if w < 0.25: opts.append(a)
             elif w < 0.5: opts.append(b)
         if rng.random() < 0.3: opts += ["--gapsym", rng.choice([".", "_", "x"])]
-        if rng.random() < 0.3: opts += ["--rename", "nn"]
+        if rng.random() < 0.3 and which == "reformat-afa": opts += ["--rename", "nn"]
         if rng.random() < 0.2: opts += ["--replace", rng.choice(["A:x", "AC:ca"])]
-        outf = rng.choice(["afa", "afa", "pfam"])
-        if outf == "pfam":
-            opts = [o for k_, o in enumerate(opts) if o != "--rename" and (k_ == 0 or opts[k_ - 1] != "--rename")]   # unimplemented with --small pfam
+        outf = "afa" if which == "reformat-afa" else "pfam"
         tail = ["--informat", "pfam", outf, "in.sto"]
-        a1, a2, tool = opts + tail, ["--small"] + opts + tail, "esl-reformat"
+        case["ops"] = [op_file("in.sto", text), op_run("esl-reformat", opts + tail), op_run("esl-reformat", ["--small"] + opts + tail)]
+        case["same_out"] = True; case["nopred_first"] = True
     elif which == "alimask":
-        alen = len(rows[0][1]); a = rng.randrange(1, alen + 1); b = rng.randrange(a, alen + 1)
-        base = ["-t", "--informat", "pfam", ABCFLAG[abc], "in.sto", "%d-%d" % (a, b)]
-        a1, a2, tool = base, ["--small"] + base, "esl-alimask"
-    else:
-        names = [n for n, _ in rows]; sel = [n for n in names if rng.random() < 0.5] or [names[0]]
-        if len(sel) == len(names) and len(names) > 1: sel = sel[:-1]
+        alen = len(rows0[0][1])
+        mode = rng.choice(["-t", "-t", "maskfile", "rf"]) if rf0 else rng.choice(["-t", "maskfile"])
+        ops = [op_file("in.sto", text)]
+        if mode == "-t":
+            a = rng.randrange(1, alen + 1); b = rng.randrange(a, alen + 1)
+            base = ["-t", "--informat", "pfam", ABCFLAG[abc], "in.sto", "%d-%d" % (a, b)]
+        elif mode == "maskfile":
+            m = "".join(rng.choice("01") for _ in range(alen))
+            if "1" not in m: m = "1" + m[1:]
+            ops.append(op_file("mask", m + "\n"))
+            base = ["--informat", "pfam", ABCFLAG[abc], "in.sto", "mask"]
+        else:
+            base = ["--rf-is-mask", "--informat", "pfam", ABCFLAG[abc], "in.sto"]
+        case["ops"] = ops + [op_run("esl-alimask", base), op_run("esl-alimask", ["--small"] + base)]
+        case["same_out"] = True; case["nopred_first"] = True
+    elif which == "alimanip":
+        sel = [n for n in names if rng.random() < 0.5] or [names[0]]
         opt = rng.choice(["--seq-k", "--seq-r"])
-        if opt == "--seq-r" and len(sel) == len(names): opt = "--seq-k"
+        if len(sel) == len(names):
+            if len(names) > 1: sel = sel[:-1]
+            else: opt = "--seq-k"
+        rng.shuffle(sel)
         base = [opt, "list", "--informat", "pfam", ABCFLAG[abc], "in.sto"]
-        a1, a2, tool = base, ["--small"] + base, "esl-alimanip"
-        return {"name": "ref-small-%d-%s" % (i, which), "ref": True, "nopred_ok": True, "sticky": 1, "same_out": True,
-                "ops": [op_file("in.sto", text), op_file("list", "\n".join(sel) + "\n"), op_run(tool, a1), op_run(tool, a2)]}
-    return {"name": "ref-small-%d-%s" % (i, which), "ref": True, "nopred_ok": True, "sticky": 1, "same_out": True,
-            "ops": [op_file("in.sto", text), op_run(tool, a1), op_run(tool, a2)]}
+        case["ops"] = [op_file("in.sto", text), op_file("list", "\n".join(sel) + "\n"), op_run("esl-alimanip", base), op_run("esl-alimanip", ["--small"] + base)]
+        case["same_out"] = True; case["nopred_first"] = True
+    else:
+        base = (["-1"] if rng.random() < 0.4 else []) + ["--informat", "pfam", ABCFLAG[abc], "in.sto"]
+        case["ops"] = [op_file("in.sto", text), op_run("esl-alistat", base), op_run("esl-alistat", ["--small"] + base)]
+    return case
 
 
 def ref_afetch_multi(rng, i):
@@ -2377,6 +2628,23 @@ def corpus_cases(ctx):
         {"name": "corpus-translate-short", "ref": True, "sticky": 1,
          "ops": [op_file("in.fa", ">a\nCC\n>b a desc\nATTG\n"), op_run("esl-translate", ["-l", "0", "-m", "--crick", "--informat", "fasta", "in.fa"])]},
     ]
+    # round 6 (edge stream): a directory where an input file is expected -> esl_buffer_OpenFile slurps it -> 'failed to slurp' exception
+    # (repaired in 5d94071: esl_buffer_OpenFile refuses a directory with eslENOTFOUND): must be a diagnostic + non-zero exit
+    for k_, (t_, a_) in enumerate([("esl-alistat", ["/tmp"]), ("esl-seqstat", ["."]), ("esl-reformat", ["pfam", "/"]), ("easel", ["index", "."])]):
+        out.append({"name": "corpus-regress-5d94071-directory-as-input-%d" % k_, "expect_err": True, "ops": [op_run(t_, a_)]})
+    # round 6: esl-alistat --small truncated each column's (fractional, degenerate) residue count: B + H in one DNA column counted 1 (repaired in edf1c28)
+    out.append({"name": "corpus-regress-edf1c28-alistat-small-nres", "ref": True, "sticky": 1,
+                "ops": [op_file("bh.sto", "# STOCKHOLM 1.0\ns1 B\ns2 H\n//\n"), op_run("esl-alistat", ["--small", "--dna", "--informat", "pfam", "bh.sto"])]})
+    # round 6: esl_msafile2_RegurgitatePfam looked a #=GS line's sequence name up before parsing it (NULL -> SIGSEGV with --seq-k; --seq-r kept
+    # the #=GS lines of removed sequences); repaired in 682375e. Predicted exactly by the Lean model of the regurgitator.
+    q_ = "# STOCKHOLM 1.0\n#=GS s1 AC acc1\n#=GS seq_two DE a description here\n\ns1         acgu-ACGU.nn\n#=GR s1 PP 9999.9999.99\nseq_two    AC-UUACGU.NN\n#=GC SS_cons <<<<....>>>>\n#=GC RF      xxxx.xxxx.xx\n//\n"
+    for k_, o_ in enumerate(["--seq-k", "--seq-r"]):
+        out.append({"name": "corpus-regress-682375e-regurgitate-gs-%d" % k_, "ref": True, "sticky": 2,
+                    "ops": [op_file("q.sto", q_), op_file("list", "s1\n"), op_run("esl-alimanip", ["--small", o_, "list", "--rna", "--informat", "pfam", "q.sto"])]})
+    # round 6: esl-reformat --small pfam with a WUSS option: inverted #=GR / SS tests ('bad #=GR line' on any #=GF line); repaired in 2415140
+    out.append({"name": "corpus-regress-2415140-reformat-small-dewuss", "expect_ok": True,
+                "ops": [op_file("w.sto", "# STOCKHOLM 1.0\n#=GF ID aln1\n\ns1         ACGU-ACGU.NN\n#=GR s1 SS <<<<....>>>>\nseq_two    AC-UUACGU.NN\n#=GC SS_cons <<<<....>>>>\n//\n"),
+                        op_run("esl-reformat", ["--small", "--dewuss", "--informat", "pfam", "pfam", "w.sto"])]})
     # esl-alimask -p: a #=GR PP character outside 0-9 * gap indexed pp_ct[apos][-1] (found in round 4 while modelling -p; repaired in 2ee6f53):
     # must be refused with a message
     out.append({"name": "corpus-regress-2ee6f53-alimask-p-bad-ppchar", "expect_err": True,
@@ -2491,13 +2759,25 @@ def ref_monitor(ctx, case, out):
         o1 = dict(w.split("=", 1) for w in out[-2].split() if "=" in w).get("out")
         o2 = dict(w.split("=", 1) for w in out[-1].split() if "=" in w).get("out")
 
-        def _norm(h):      # the two modes pad the name column differently: compare line by line, token by token
+        def _norm(h):      # names and residues of every alignment, in order (the two modes lay out the annotation differently)
             try:
                 t = bytes.fromhex(h).decode("latin-1")
-                if "reformat" not in case["name"]:
-                    t = t.upper()      # esl-alimask/-alimanip digitize in normal mode (upper case), --small passes the text through
-                return [l.split() for l in t.split("\n") if l.strip()]
             except Exception: return h
+            digital = "reformat" not in case["name"]      # esl-alimask/-alimanip digitize in normal mode (upper case, '-' gaps), --small passes the text through
+            recs, cur = [], None
+            if t.startswith(">"):
+                for l in t.split("\n"):
+                    if l.startswith(">"): cur = [l[1:].split()[0] if l[1:].split() else "", ""]; recs.append(cur)
+                    elif cur is not None: cur[1] += l.strip()
+            else:
+                for l in t.split("\n"):
+                    w = l.split()
+                    if not w or l.lstrip().startswith("#"): continue
+                    if w[0] == "//": recs.append(["//", ""]); continue
+                    if len(w) >= 2: recs.append([w[0], w[1]])
+            if digital:
+                recs = [[n, "".join("-" if c in "-._~" else c.upper() for c in s_)] for n, s_ in recs]
+            return recs
         if o1 in (None, "-") or _norm(o1) != _norm(o2 or ""):
             def _t(h):
                 try: return bytes.fromhex(h).decode("latin-1")[:300]
